@@ -25,6 +25,18 @@ CHECKS = {
   'processor-set histories (ties, zero/negative priorities, replacement, class-level defaults through shadow classes) with a per-frame call log compared with a stable-insertion model; processors property and get_processor after every step.',
   'trusted: reference model; processor set is mutated between frames only (DESIGN.md section 5)',
   'deterministic simulation: seeded histories vs. stable-sort model, call log per frame'),
+ 'C03': ('dispatch', 'exploration', 'DESIGN.md 3/C03',
+  'seeded add_handler/remove_handler/dispatch histories on a plain dispatcher or a World, generated handler class hierarchies (decorator forms, overriding, remapping), re-entrant operations executed from inside callbacks at activations found by a fault-free dry run; every delivery is attributed to a unique token and compared with a dispatcher model; class event maps are compared with a model computed from the decorator arguments alone.',
+  'trusted: DispatcherModel; single-inheritance handler hierarchies (+ plain mixin)',
+  'deterministic simulation: seeded histories with re-entrant callbacks, token-attributed delivery log vs. model'),
+ 'C04': ('dispatch', 'fault_enumeration', 'DESIGN.md 3/C04',
+  'for each sampled base history the faults (raise Boom/Quit/SwitchWorld, nested disable, disable+dispatch+enable, re-dispatch, nested enable) are placed at delivery positions of its releases (quick: 3 sampled; thorough: every position x every kind), each followed by a recovery suffix; the release is judged as a history over the delivery log (no delivery while disabled, at most once per (token, listener), first deliveries in dispatch order, nothing lost once enabling returned normally) and termination is a step budget on desper lines.',
+  'trusted: history checker; an event already in flight when a callback disables dispatching may finish its delivery; exhaustive only within each sampled base scenario',
+  'deterministic simulation with fault injection at every delivery position; history check; step-budget liveness'),
+ 'C10': ('dispatch', 'fault_enumeration', 'DESIGN.md 3/C10',
+  'the simulator holds the only strong reference to each handler (or hands it to a World as sole owner); for multi-listener dispatches the last reference to listener j is dropped from the callback of listener i (quick: 3 sampled pairs; thorough: all pairs) under five listener orders; a receiver monitor runs inside every callback, weakref death is verified at the next quiescent point, GC is an explicit operation, unraisable exceptions are captured.',
+  'trusted: CPython refcount semantics for immediate death; collector disabled during runs',
+  'deterministic simulation: reference-drop fault at every (caller, victim) pair, receiver-identity monitor'),
 }
 NA = {
  'C18': 'pure arithmetic on immutable tuples: no state, schedule, clock, I/O or fault for a simulator to decide (DESIGN.md section 3, C18)',
